@@ -31,6 +31,7 @@ __all__ = (
 )
 
 FEATURES = (
+    "bad",
     "subplans",
     "workdirs",
     "scripts",
@@ -233,10 +234,14 @@ def _assign_statics(rng, proj):
     """Every source outside a tree, every script and every sub-plan needs a static()."""
     plans = [p["name"] for p in proj["plans"]]
     gdirs = [g["dir"] + "/" for g in proj["globs"]]
+    undeclared = set(proj.get("undeclared", ()))
     for src in proj["sources"]:
         if any(src.startswith(t) for t in proj["trees"]):
             continue
         if any(src.startswith(d) for d in gdirs):
+            proj["statics"].pop(src, None)
+            continue
+        if src in undeclared:
             proj["statics"].pop(src, None)
             continue
         if src not in proj["statics"]:
@@ -496,6 +501,10 @@ def mutate(rng: random.Random, proj: dict, feats, stash: list, masks=frozenset()
     ops += ["add_step", "rename_out", "toggle_optional", "add_source", "del_source"]
     if p["globs"]:
         ops += ["glob_add", "glob_del"]
+    if "scripts" in feats:
+        ops.append("drop_input")
+    if "bad" in feats:
+        ops += ["fail_step", "unfail_step", "undeclare", "redeclare", "bad_resource", "fail_step"]
     op = rng.choice(ops)
     cascade = True if "drop_producer" in masks else (rng.random() < 0.5)
     desc = op
@@ -635,6 +644,39 @@ def mutate(rng: random.Random, proj: dict, feats, stash: list, masks=frozenset()
             k = rng.choice(cand)
             del p["sources"][k]
             desc = f"glob_del {k}"
+    elif op == "drop_input":
+        cand = [s_ for s_ in p["steps"] if s_["script"] and any(a[0] in ("read", "aread", "reada") for a in s_["acts"])]
+        if cand:
+            st = rng.choice(cand)
+            idx = [k for k, a in enumerate(st["acts"]) if a[0] in ("read", "aread", "reada")]
+            k = rng.choice(idx)
+            gone = st["acts"].pop(k)
+            desc = f"drop_input {st['name']} {gone}"
+    elif op == "fail_step" and p["steps"]:
+        st = rng.choice(p["steps"])
+        if not any(a[0] == "exit" for a in st["acts"]):
+            pos = rng.randint(0, len(st["acts"]))
+            st["acts"].insert(pos, ["exit", rng.choice([1, 1, 2])])
+            desc = f"fail_step {st['name']} at {pos}"
+    elif op == "unfail_step":
+        cand = [s_ for s_ in p["steps"] if any(a[0] == "exit" for a in s_["acts"])]
+        if cand:
+            st = rng.choice(cand)
+            st["acts"] = [a for a in st["acts"] if a[0] != "exit"]
+            desc = f"unfail_step {st['name']}"
+    elif op == "undeclare":
+        cand = sorted(k for k in p["statics"] if k in p["sources"])
+        if cand:
+            k = rng.choice(cand)
+            p.setdefault("undeclared", []).append(k)
+            desc = f"undeclare {k}"
+    elif op == "redeclare" and p.get("undeclared"):
+        k = p["undeclared"].pop(rng.randrange(len(p["undeclared"])))
+        desc = f"redeclare {k}"
+    elif op == "bad_resource" and p["steps"]:
+        st = rng.choice(p["steps"])
+        st["resources"] = rng.choice([{"tpu": 1}, {"cpu": 9}, {"cpu": 1, "tpu": 2}, {}])
+        desc = f"bad_resource {st['name']} {st['resources']}"
     _assign_statics(rng, p)
     return p, desc
 
